@@ -60,6 +60,21 @@ class C14(Prop):
                     c21 = [float(x) for x in c21]
                     iso = None
                 yield {'kind': 'potency', 'c21': c21, 'iso': iso, 'm': [rng.gauss(0, 1) for _ in range(6)]}
+        # repeated eigenvalues in general orientation (cheap, oracle only): the axes of the repeated pair must still rebuild the tensor
+        for i in range(600 if tier == 'quick' else 20000):
+            q, _ = np.linalg.qr(np.array([[rng.gauss(0, 1) for _ in range(3)] for _ in range(3)]))
+            e = rng.choice([[2.0, 0.0, 0.0], [0.0, 0.0, -1.0], [1.0, 1.0, 0.0], [0.0, -1.0, -1.0], [2.0, -1.0, -1.0], [1.0, 1.0, -2.0],
+                            [1.0, 1.0, -0.5], [3.0, 1.0, 1.0], [1.0, 1.0, 1.0 + 1e-9], [1.0, 1e-12, 0.0]])
+            sc = 10 ** rng.uniform(-3, 3)
+            m = sum(e[j] * sc * np.outer(q[:, j], q[:, j]) for j in range(3))
+            m = 0.5 * (m + m.T)
+            yield {'kind': 'eig', 'm': [[float(x) for x in r] for r in m], 'rep': True}
+        # lune coordinates -> eigenvalues -> lune coordinates, for arrays of 1..6 points
+        for i in range(60 if tier == 'quick' else 1500):
+            npt = rng.choice([1, 2, 3, 3, 4, 6])
+            pts = [[rng.choice([rng.uniform(-PI / 6, PI / 6), 0.0, PI / 6, -PI / 6]),
+                    rng.choice([rng.uniform(-PI / 2, PI / 2), 0.0, rng.uniform(-1.55, 1.55)])] for _ in range(npt)]
+            yield {'kind': 'lune', 'pts': pts}
 
     # ------------------------------------------------------------------ implementation
     def impl(self, case):
@@ -90,6 +105,18 @@ class C14(Prop):
             res['batched_tkuv'] = [[float(np.asarray(x).flatten()[j]) for x in (tu, tw)] for j in range(len(cols))]
             res['singles'] = [all_of(c) for c in cols]
             return res
+        if k == 'lune':
+            g = np.array([p[0] for p in case['pts']])
+            d = np.array([p[1] for p in case['pts']])
+            E = np.asarray(cv.GD_E(g.copy(), d.copy()), dtype=float)
+            res = {'shape': list(E.shape)}
+            if list(E.shape) == [3, len(case['pts'])]:
+                res['cols'] = [[float(x) for x in E[:, j]] for j in range(E.shape[1])]
+                bg, bd = cv.E_GD(E.copy())
+                res['back'] = [[float(np.asarray(bg).flatten()[j]), float(np.asarray(bd).flatten()[j])] for j in range(E.shape[1])]
+                res['singles'] = [[float(x) for x in np.asarray(cv.GD_E(np.array([p[0]]), np.array([p[1]])), dtype=float).flatten()]
+                                  for p in case['pts']]
+            return res
         if k == 'cdc':
             g, d = cv.basic_cdc_GD(np.array([case['a']]), case['nu'])
             g, d = float(np.asarray(g).flatten()[0]), float(np.asarray(d).flatten()[0])
@@ -112,6 +139,8 @@ class C14(Prop):
             e = case['e']
             es = sorted(e, reverse=True)
             return ['conv egd %s' % vbits(e), 'conv etksorted %s' % vbits(e)]
+        if k == 'lune':
+            return ['conv gde %s' % vbits(p) for p in case['pts']]
         if k == 'cdc':
             reqs = ['conv cdcgd %s' % vbits([case['a'], case['nu']])]
             if isinstance(impl, dict) and 'gd' in impl:
@@ -140,6 +169,12 @@ class C14(Prop):
             uv = reply_floats(run_driver(['conv tkuv %s' % vbits(tk)])[0])
             if not all(close(a, b, atol=1e-9) for a, b in zip(uv, impl['sorted'][4:6])) and not any(math.isnan(x) for x in uv):
                 out.append(('E_uv (sorted spectrum): model %r, implementation %r' % (uv, impl['sorted'][4:6]), None))
+        elif k == 'lune':
+            for j, rep in enumerate(replies):
+                m = reply_floats(rep)
+                if 'cols' in impl and not all(close(a, b, atol=1e-12) for a, b in zip(m, impl['cols'][j])):
+                    out.append(('GD_E point %d of %d %r: model %r, implementation %r' % (j, len(replies), case['pts'][j], m, impl['cols'][j]), None))
+                    break
         elif k == 'cdc':
             gd = reply_floats(replies[0])
             if not all(abs(a - b) < 1e-9 for a, b in zip(gd, impl['gd'])):
@@ -224,6 +259,21 @@ class C14(Prop):
             key = tuple(sorted(case['e'], reverse=True))
             if key in special and (abs(s[4] - special[key][0]) > 1e-9 or abs(s[5] - special[key][1]) > 1e-9):
                 out.append(('hudson-special', 'spectrum %r maps to (u,v)=(%r,%r), expected %r' % (key, s[4], s[5], special[key]), None))
+        elif k == 'lune':
+            n = len(case['pts'])
+            if impl['shape'] != [3, n]:
+                out.append(('lune-shape', 'GD_E on %d points returned an array of shape %r' % (n, impl['shape']), None))
+                return out
+            for j, (p, col, bk, sg) in enumerate(zip(case['pts'], impl['cols'], impl['back'], impl['singles'])):
+                if not all(close(x, y, atol=1e-12) for x, y in zip(col, sg)):
+                    out.append(('batched', 'GD_E on %d points gives eigenvalues %r for point %d %r, alone %r' % (n, col, j, p, sg), None))
+                    break
+                if not (col[0] >= col[1] - 1e-12 and col[1] >= col[2] - 1e-12) or abs(sum(x * x for x in col) - 1) > 1e-9:
+                    out.append(('lune-eigenvalues', 'GD_E%r = %r is not a unit, descending eigenvalue triple' % (tuple(p), col), None))
+                    break
+                if abs(bk[1] - p[1]) > 1e-7 or (abs(abs(p[1]) - PI / 2) > 1e-6 and abs(bk[0] - p[0]) > 1e-7 / max(1e-3, math.cos(p[1]))):
+                    out.append(('lune-roundtrip', 'E_GD(GD_E(%r)) = %r' % (tuple(p), bk), None))
+                    break
         elif k == 'cdc':
             a, nu = case['a'], case['nu']
             if abs(a - PI / 2) < 1e-9:
@@ -258,6 +308,10 @@ class C14(Prop):
             return 'spectrum/%s' % ('distinct' if len(set(case['e'])) == 3 else 'repeated')
         if k == 'potency':
             return 'potency/%s' % ('iso' if case['iso'] else 'generic')
+        if k == 'lune':
+            return 'lune/%d' % len(case['pts'])
+        if k == 'eig' and case.get('rep'):
+            return 'eig/repeated-stream'
         return k
 
 
